@@ -70,8 +70,18 @@ def _r8_event_framing(P: Project, R: Report) -> None:
         R.rules.pop("R8", None)
 
 
+def _r9_payload_members(P: Project, R: Report) -> None:
+    from .c11 import payload_truthiness
+
+    R.rule("R9", "the same reply values on every carrier: no carrier judges a parsed wire object by the truthiness of `result`, `error`, `id` or `params` (present-but-falsy values — `\"result\": {}`, id 0 — are delivered like any other; presence is tested with `in` / `is not None`)")
+    n = payload_truthiness(P, R, [A.MOD_HTTP, A.MOD_SSE, A.MOD_STDIO], "R9")
+    if n == 0:
+        R.ob("R9", "no carrier tests a wire member's truthiness", True, "", "", sample="R9 http, sse, stdio carriers: `.get('result'/'error'/'id'/'params')` never in truth position")
+
+
 def check(P: Project, R: Report) -> None:
     _r8_event_framing(P, R)
+    _r9_payload_members(P, R)
     _check_main(P, R)
     _r4_order(P, R)
     _r5_no_invented_message(P, R)
